@@ -96,6 +96,31 @@ def check(facts, rep, tier, cfg):
                                 "CONNECT head, already read by hyper, never reach the target" % sorted(raw or lo_calls)[:5])
                     else:
                         rep.ok("C01.R1", "http-connect-keeps-buffered-bytes", where, "bridge on hyper's Upgraded object")
+                if b.file.endswith(("/handle_remote/tcp.rs", "/handle_remote/tproxy.rs")):
+                    # fixed-target forwarders: the accepted connection is only ever handed to the bridge; nothing reads from it before
+                    # (an EOF seen there may be a mere half-close: acting on it bypasses the bridge's half-close handling)
+                    roots = set(x[4] for x in walk(lo) if x.kind == "call" and x[6] in ("accept", "accept_with_sockaddr", "poll_accept"))
+                    root_fn = b.path.split("::{")[0]
+                    READS = {"fill_buf", "poll_fill_buf", "read", "read_buf", "read_exact", "read_to_end", "peek", "poll_peek", "poll_read",
+                             "readable", "ready", "poll_read_ready", "try_read", "read_u8", "read_line", "read_until"}
+                    early = None
+                    for b2 in crate.bodies:
+                        if b2.path.split("::{")[0] != root_fn:
+                            continue
+                        tr2 = tr if b2 is b else Tracer(facts, b2)
+                        for bj, t2 in b2.calls():
+                            c2 = callee(t2)
+                            if c2 and c2["name"] in READS and t2["args"] and b2 is b and \
+                                    any(x.kind == "call" and x[4] in roots for x in walk(tr2.operand(t2["args"][0]))):
+                                early = t2
+                    if early is not None:
+                        ok_l = False
+                        rep.bad("C01.R1", "local-connection-untouched/%s" % root_fn, "%s (%s)" % (loc_str(early["loc"]), b.path),
+                                "the forwarder reads from the accepted local connection outside the bridge: what it sees there (for instance an EOF that "
+                                "is only the client's half-close) is acted on without the bridge's half-close handling, so a client that shuts down its "
+                                "write side and waits for the answer can be dropped")
+                    elif roots:
+                        rep.ok("C01.R1", "local-connection-untouched/%s" % root_fn, where, "the accepted connection goes to the bridge unread")
                 if ok_s and ok_l:
                     rep.ok("C01.R1", key, where, "client: requested stream <-> accepted local connection")
                 else:
